@@ -168,7 +168,7 @@ def data_of(desc):
 
 
 def zeros_stream(n, wbits):
-    co = zlib.compressobj(9, zlib.DEFLATED, wbits)
+    co = zlib.compressobj(-1, zlib.DEFLATED, wbits)       # default level: header 78 9C when wrapped
     out, chunk, left = [], bytes(1 << 20), n
     while left > 0:
         k = min(left, 1 << 20)
@@ -503,7 +503,15 @@ def run(ctx):
     from joserfc.rfc7518 import jwe_zips
     from joserfc.rfc7516.registry import JWERegistry
     rng = ctx.rng
+    import time as _time
+    timing, _t0 = {}, [_time.time()]
+
+    def tick(label):
+        now = _time.time()
+        timing[label] = round(timing.get(label, 0) + now - _t0[0], 1)
+        _t0[0] = now
     ok, log = ctx.prove()
+    tick("prove")
 
     cases, meta = [], []
     dist = {}
@@ -589,7 +597,7 @@ def run(ctx):
                 findings["incomplete_prefix_returned"] += 1
                 notes_samples.setdefault("incomplete", {"stream": desc, "returned": len(r[1]),
                                                         "note": "incomplete DEFLATE stream: prefix returned, no error"})
-            if r[0] == "err" and isinstance(r[1], zlib.error):
+            if r[0] == "err" and not lib.is_allowed_exn(r[1]):
                 findings["zlib_error_escapes"] += 1
             if wrapped and ref_raw is not None and ref_raw[2] and (r[0] != "ok" or r[1] != ref_raw[0][:ref_raw[1]]):
                 findings["raw_prefix_gap"] += 1
@@ -711,6 +719,7 @@ def run(ctx):
             if n in lcg_lengths:
                 roundtrip({"cls": "lcg", "n": n}, contract_ms=ms_boundary if not ctx.quick or n % 3 == 0 else ())
 
+        tick("B")
         # ---- C. small and assorted lengths, all classes
         small = [0, 1, 2, 3, 5, 6, 7, 10, 100, 255, 256, 257, 258, 259, 1000, 32767, 32768, 32769, 65535, 65536, 65537,
                  100000, 200000, 255000]
@@ -736,6 +745,7 @@ def run(ctx):
                 p = (ZHEAD + bytes(rng.randrange(256) for _ in range(ln)))     # plaintexts that begin with 78 9C
             roundtrip({"cls": "lit", "hex": p.hex(), "n": len(p)}, contract_ms=(LIMIT + 1, 1, max(1, len(p))))
 
+        tick("C")
         # ---- D. over-limit plaintexts far from the boundary, high ratios
         for n in [256512, 262144, 300000, 1 << 20]:
             roundtrip({"cls": "const", "c": 104, "n": n})
@@ -743,6 +753,7 @@ def run(ctx):
         roundtrip({"cls": "lcg", "n": 1 << 20}, coq=False)
         roundtrip({"cls": "lcg", "n": 300000})
 
+        tick("D")
         # ---- E. foreign streams
         def foreign(desc, coq=True, contract_ms=(LIMIT + 1,)):
             s, p = build_stream(desc, zipm)
@@ -767,8 +778,6 @@ def run(ctx):
                         "mem": rng.choice([8, 8, 1, 9])}
                 if rng.randrange(5) == 0 and n > 0:
                     desc["flush"] = rng.choice([1000, 65536, 100000])
-                big_lit = (c == "lcg" and lv != 0 and n > 2000) or (st in (zlib.Z_HUFFMAN_ONLY, zlib.Z_FIXED) and n > 2000) \
-                    or (c == "periodic" and lv == 0 and n > 2000)
                 foreign(desc)
         # hand-assembled stored blocks (zero, random and maximal sizes; wrapped or raw)
         for _ in range(ctx.scale(40, 500)):
@@ -821,6 +830,7 @@ def run(ctx):
                 "raw_expansion_len": refg[1], "impl": "ok %d" % len(rg[1]) if rg[0] == "ok" else exn_class(rg[1])}
         bump("gap_probe")
 
+        tick("E")
         # ---- F. huge expansions (ratio ~1000:1) and peak memory
         zn = ctx.scale(64, 512) << 20
         for wb in (-15, 15):
@@ -875,6 +885,7 @@ def run(ctx):
                               {"fn": "memory", "mode": mode, "zeros": zn, "measured": mres})
         ctx.coverage["peak_memory"] = mem
 
+        tick("F")
         # ---- G. through every enc and serialization (pairwise), position after authentication
         encs = list(JWERegistry.algorithms["enc"].values())
         keys = {e.name: OctKey.import_key(bytes(rng.randrange(256) for _ in range(e.cek_size // 8))) for e in encs}
@@ -1039,6 +1050,7 @@ def run(ctx):
         check_jwe(token, key, None, zn, "%s/compact/huge" % encs[0].name,
                   {"enc": encs[0].name, "ser": "compact", "data": {"cls": "zeros", "n": zn}, "how": "zeros", "wbits": -15}, coq=False)
 
+    tick("G")
     # ---- H. cross-check of the two evaluators of octet-string descriptions
     big = list(specs.big.values())
     rng.shuffle(big)
@@ -1075,6 +1087,8 @@ def run(ctx):
         resource.setrlimit(resource.RLIMIT_STACK, (soft, hard))
     except (ValueError, OSError):
         pass
+    tick("coq-eval")
+    ctx.coverage["timing_s"] = timing
     ctx.coverage["traces_validated_against_impl"] = res["evaluated"]
     ctx.coverage["disagreements_checked"] = len(res["failing"])
     direct = len(ctx.violations)
